@@ -19,6 +19,35 @@ RPMS_VERSIONS = ["1.2", "1.1", "1.0", "0.4", "0.3", "0.2", "0.0"]
 TI_VERSIONS = ["1.2", "2.0", "1.1", "1.0", "0.9", "0.4", "0.3", "0.2", "0.1"]
 
 
+def gate_versions(repo, modules):
+    """every `version_tuple <op> (a, b)` bound of the given productmd modules, with both numeric neighbours (audit C2):
+    -> ["a.b", "a.(b-1)", "a.(b+1)", ...]"""
+    import ast, os
+    out = []
+    for m in modules:
+        tree = ast.parse(open(os.path.join(repo, "productmd", m + ".py")).read())
+        for n in ast.walk(tree):
+            if isinstance(n, ast.Compare) and any(isinstance(x, ast.Attribute) and x.attr == "version_tuple" for x in [n.left] + list(n.comparators)):
+                for c in [n.left] + list(n.comparators):
+                    if isinstance(c, ast.Tuple) and len(c.elts) == 2 and all(isinstance(e, ast.Constant) and isinstance(e.value, int) for e in c.elts):
+                        a, b = c.elts[0].value, c.elts[1].value
+                        for bb in (b - 1, b, b + 1):
+                            if bb >= 0:
+                                out.append("%d.%d" % (a, bb))
+    return list(dict.fromkeys(out))
+
+
+def versions_for(repo, fmt):
+    """fixed boundary list of the format + the bounds read from the source + two-digit minors (0.10 > 0.3, 1.10 > 1.2)"""
+    fixed = {"ci": CI_VERSIONS, "img": IMG_VERSIONS, "rpms": RPMS_VERSIONS, "ti": TI_VERSIONS}[fmt]
+    mods = {"ci": ["common", "composeinfo"], "img": ["common", "composeinfo", "images"], "rpms": ["common", "composeinfo", "rpms"],
+            "ti": ["treeinfo"]}[fmt]
+    extra = gate_versions(repo, mods) + ["0.10", "1.10"]
+    if fmt == "ti":
+        extra = [v for v in extra if v != "0.0"]          # no-header files have their own generator
+    return list(dict.fromkeys(list(fixed) + extra))
+
+
 def vt(version):
     a, b = version.split(".")
     return (int(a), int(b))
@@ -59,10 +88,28 @@ def ci_doc(nspec):
     return {"header": {"type": "productmd.composeinfo", "version": "1.2"}, "payload": payload}
 
 
-def ci_down(doc, version, keep_internal=False):
+def ci_down(doc, version, keep_internal=False, opts=None):
+    """opts (audit: every optional key absent / present with its default; decoupled type field; case of the release type):
+    "no_final": `final` omitted next to a label when it is false (documented default); "explicit_defaults": `is_layered: false`,
+    `variants: []` on leaves (>= 1.0), an empty category dict in `paths`; "upper_type": release type in upper case where the
+    field exists (the reader case-folds it); "type_mismatch": a compose `type` that contradicts the id in a < 0.3 document
+    (the field must be there, its value is ignored)"""
+    opts = opts or {}
     d = copy.deepcopy(doc)
     t = vt(version)
     p = d["payload"]
+    if opts.get("no_final") and p["compose"].get("label") and p["compose"].get("final") is False:
+        del p["compose"]["final"]
+    if opts.get("explicit_defaults"):
+        p["release"].setdefault("is_layered", False)
+        for v in p["variants"].values():
+            if t >= (1, 0):
+                v.setdefault("variants", [])
+            v["paths"].setdefault("os_tree" if "os_tree" not in v["paths"] else "jigdos", {})
+    if opts.get("upper_type") and t >= (1, 1):
+        p["release"]["type"] = p["release"]["type"].upper()
+    if opts.get("type_mismatch") and t < (0, 3):
+        p["compose"]["type"] = "production" if p["compose"]["type"] != "production" else "nightly"
     d["header"] = {"version": version} if t < (1, 1) else {"type": "productmd.composeinfo", "version": version}
     rels = [p["release"]] + [v["release"] for v in p["variants"].values() if "release" in v]
     if t < (1, 2) and not keep_internal:
@@ -130,7 +177,7 @@ def ci_prefix_ambiguous(nspec):
 
 
 # ================================================================================================ images
-def img_down(doc, version, src_cells=True):
+def img_down(doc, version, src_cells=True, opts=None):
     """doc: current-format images document (formats.images.doc_of_spec).  <= 1.1: an image whose `arch` attribute is
     "src" and which is filed under every binary arch of its variant is filed once, under "src"; <= 1.0: no subvariant,
     no header type; < 0.3: no compose date/respin"""
@@ -153,6 +200,23 @@ def img_down(doc, version, src_cells=True):
             for cell in arches.values():
                 for r in cell:
                     r.pop("subvariant", None)
+    opts = opts or {}
+    if t < (1, 0):
+        # `format` is documented from 1.0 on (doc/images-1.0.rst); before, every image was an ISO: the key is absent, default "iso"
+        for arches in d["payload"]["images"].values():
+            for cell in arches.values():
+                for r in cell:
+                    if r.get("format") == "iso":
+                        del r["format"]
+    if opts.get("empty_cell"):
+        for arches in d["payload"]["images"].values():
+            arches.setdefault("s390", [])                 # an arch without images: nothing to load
+            break
+    comp = d["payload"]["compose"]
+    if opts.get("no_final") and comp.get("label") and comp.get("final") is False:
+        del comp["final"]
+    if opts.get("type_mismatch") and t < (0, 3):
+        comp["type"] = "production" if comp["type"] != "production" else "nightly"
     if t < (0, 3):
         d["payload"]["compose"].pop("date")
         d["payload"]["compose"].pop("respin")
@@ -160,7 +224,7 @@ def img_down(doc, version, src_cells=True):
 
 
 # ================================================================================================ rpms
-def rpms_down(doc, version, upper=False, suffix=False):
+def rpms_down(doc, version, upper=False, suffix=False, opts=None):
     """doc: current-format rpms document.  <= 0.3: section `manifest`, entry key `type` with "package" for binary RPMs
     instead of `category`, source RPMs filed once per variant under arch "src" (srpm nevra -> {path, sigkey}) and not
     repeated next to their binaries; < 1.1 no header type; < 0.3 no compose date/respin"""
@@ -182,6 +246,12 @@ def rpms_down(doc, version, upper=False, suffix=False):
                                 "path": data["path"], "sigkey": sk,
                                 "type": "package" if data["category"] == "binary" else data["category"]}
         d["payload"]["manifest"] = man
+    opts = opts or {}
+    comp = d["payload"]["compose"]
+    if opts.get("no_final") and comp.get("label") and comp.get("final") is False:
+        del comp["final"]
+    if opts.get("type_mismatch") and t < (0, 3):
+        comp["type"] = "production" if comp["type"] != "production" else "nightly"
     if t < (0, 3):
         d["payload"]["compose"].pop("date")
         d["payload"]["compose"].pop("respin")
@@ -192,7 +262,12 @@ def rpms_down(doc, version, upper=False, suffix=False):
 PATH_FIELDS = ["packages", "repository", "source_packages", "source_repository", "debug_packages", "debug_repository", "identity"]
 
 
-def ti_sections(spec, version, child_key="addons"):
+BOOL_TRUE = ["true", "True", "1", "yes", "on", "TRUE"]
+BOOL_FALSE = ["false", "False", "0", "no", "off"]
+BARE_LEN = {"md5": 32, "sha1": 40, "sha256": 64}
+
+
+def ti_sections(spec, version, child_key="addons", opts=None):
     """sections of a tree description as a file of format `version` (doc/treeinfo-1.0.rst, -1.1.rst; <= 0.3: `[product]`
     instead of `[release]`, children listed under `addons` or `variants`, a `src` tree keeps its source paths in
     `packages` / `repository`).  [general] mirrors the authoritative sections (C17)."""
@@ -201,10 +276,16 @@ def ti_sections(spec, version, child_key="addons"):
     d["header"] = {"version": version} if t < (1, 1) else {"type": "productmd.treeinfo", "version": version}
     r = spec["release"]
     rel = {"name": r["name"], "short": r["short"], "version": r["version"]}
+    opts = opts or {}
+    k = opts.get("bool_spelling", 0)
     if spec["is_layered"]:
-        rel["is_layered"] = "true"
+        rel["is_layered"] = BOOL_TRUE[k % len(BOOL_TRUE)]             # every spelling getboolean accepts
         b = spec["base_product"]
         d["base_product"] = {"name": b["name"], "short": b["short"], "version": b["version"]}
+    elif opts.get("explicit_defaults"):
+        rel["is_layered"] = BOOL_FALSE[k % len(BOOL_FALSE)]
+    if opts.get("no_short") and t > (0, 3) and r["short"] == r["name"]:
+        del rel["short"]                                              # optional from 0.4 on: defaults to the name
     d["product" if t <= (0, 3) else "release"] = rel
     tr = spec["tree"]
     ts = tr["build_timestamp"]
@@ -232,7 +313,9 @@ def ti_sections(spec, version, child_key="addons"):
     for v in spec["variants"]:
         put(v, None)
     if spec["checksums"]:
-        d["checksums"] = dict((p, "%s:%s" % (ty, val)) for p, ty, val in spec["checksums"])
+        # a digest of the length of its algorithm may be written bare (the older spelling): type implied by the length
+        d["checksums"] = dict((p, val if (opts.get("bare_checksums") and BARE_LEN.get(ty) == len(val)) else "%s:%s" % (ty, val))
+                              for p, ty, val in spec["checksums"])
     for plat, imgs in spec["images"]:
         d["images-" + plat] = dict((k, p) for k, p in imgs)
     st = spec["stage2"]
